@@ -17,6 +17,7 @@ Section Handle.
     match v with
     | VStr s => Some s
     | VInt z => Some (Z_to_dec z)
+    | VLong z => Some (Z_to_dec z)
     | VFloat b => Some (fmt6 b)
     | _ => None
     end.
